@@ -85,6 +85,9 @@ def run(ctx):
             a = E.run_impl(["RT %s %s" % (w["dialect"], E.enhex(w["input"]))])[0]
             if a.startswith("OK") and any(v and v.split("|")[0] not in FINE for v in a.split(" ")[1:]):
                 ctx.report_known(f)
+    # how much of what was explored falls under the hypotheses of the round-trip theorems (a measurement: evidence only)
+    rr = ctx.rng.fork("theorem-coverage")
+    ctx.cov["theorem_coverage"] = E.theorem_coverage([(d, t) for d, t, _ in rr.shuffle(cases)], 500 if ctx.quick else 6000)
     # a correspondence disagreement: the disagreeing input and its neighbours are the first candidates
     pfam.conclude(ctx, search)
 
